@@ -65,6 +65,15 @@ def check_case(case):
               kappa=k, orbit=ob)
         else:
             v("kappa-out-of-range:" + ob, "%s: kappa=%r is neither -1 nor in [0,1]" % (seq, k), kappa=k, orbit=ob)
+    # delta-max as seen AFTER get_kappa on the same object must still be the delta-max of a fresh object
+    if k != -1 and k >= 1.0 and not case.get("fresh"):
+        try:
+            m2 = SP(seq).get_deltaMax()
+            if m2 != m:
+                v("fresh-object-differs", "%s: get_deltaMax() after get_kappa() on the same object is %r, a fresh object gives %r"
+                  % (seq, m, m2))
+        except Exception as e:  # noqa
+            v("exception", "fresh-object get_deltaMax raised %r for %s" % (e, seq))
     # (d) order independence guard for the oracle itself (C15 judges histories)
     if case.get("fresh"):
         try:
